@@ -16,8 +16,12 @@ package models
 //@   guarded_by currentID, reusableIDs : mutex
 //@   lock_level mutex = 60
 
+// identity and ownership are fixed at creation (C05: the owner field is set only when the entity is created)
+//@ type Participant
+//@   immutable ID, Responder, SignedLatency
+
 //@ type Session
-//@   immutable ID, participants, entities, moduleStates, frameHandlers, entityComponents : NewSession
+//@   immutable ID, SessionUUID, participants, entities, moduleStates, frameHandlers, entityComponents : NewSession
 //@   guarded_by participants : participantMutex
 //@   guarded_by entities : entityMutex
 //@   guarded_by moduleStates : moduleMutex
@@ -28,6 +32,7 @@ package models
 //@   lock_level moduleMutex = 40
 
 //@ type Entity
+//@   immutable ID, ParticipantID, Persist, Flag
 //@   guarded_by pose : mutex
 //@   lock_level mutex = 50
 
@@ -128,6 +133,11 @@ package models
 // ---------------------------------------------------------------------------------------------
 // EntityComponentStore: abstract view  comp : (type, entity) -> component,  types : id <-> name
 // ---------------------------------------------------------------------------------------------
+
+// Stored protobuf messages are shared with readers outside the store's lock (List/ListAll hand out the
+// pointers, the caller marshals them later): they must never be written after they were published.
+//@ type hagallpb.EntityComponent
+//@   immutable Data, EntityId, EntityComponentTypeId
 
 //@ spec fn hasComp(c *EntityComponentStore, t uint32, e uint32) bool = t in c.entityComponents && e in c.entityComponents[t]
 //@ spec fn compAt(c *EntityComponentStore, t uint32, e uint32) *hagallpb.EntityComponent = c.entityComponents[t][e]
